@@ -197,16 +197,19 @@ func (wb *workerBinder[T]) WithPersistentPriorityQueue(pq IPersistentPriorityQue
 }
 
 func (wb *workerBinder[T]) WithDistributedQueue(dq IDistributedQueue) DistributedQueue[T] {
-	defer dq.Subscribe(wb.handleQueueSubscription)
+	// The subscription must be in place before the worker takes its first look at the queue:
+	// an item enqueued while the queue is being bound is then either seen by that look or announced.
 	defer wb.start()
+	defer dq.Subscribe(wb.handleQueueSubscription)
 	defer wb.queues.Register(dq)
 
 	return NewDistributedQueue[T](dq)
 }
 
 func (wb *workerBinder[T]) WithDistributedPriorityQueue(dpq IDistributedPriorityQueue) DistributedPriorityQueue[T] {
-	defer dpq.Subscribe(wb.handleQueueSubscription)
+	// see WithDistributedQueue: subscribe first, then start
 	defer wb.start()
+	defer dpq.Subscribe(wb.handleQueueSubscription)
 	defer wb.queues.Register(dpq)
 
 	return NewDistributedPriorityQueue[T](dpq)
